@@ -508,7 +508,10 @@ Section ExactMain.
         * destruct Hs as (Hri & _). apply refx_here. apply mem_pair_x_index. exact Hri.
         * subst oneo. unfold has in Hs. rewrite (gp_leaf _ _ _ _ _ _ _ _ _ _ _ _ _ _ _ Hs I). reflexivity.
         * (* externally tagged: no null branch, no common tag, every branch names variants of the right kind *)
-          destruct (one_kind_external bs tg Hok) as (-> & names0 & Hn0 & Hnd0).
+          assert (Htg : tg = TagExternal).
+          { clear - Hf. cbn [frag_kind] in Hf. apply andb_true_iff in Hf. destruct Hf as [_ Hp].
+            destruct tg; try discriminate Hp. reflexivity. }
+          subst tg.
           destruct Hs as (n & vs & deny & bes & names & ids & Hd & Hnames & Hndn & Hv & Hraw & Hident & Hbr).
           unfold has in Hd. cbn [union_x]. rewrite Hd. cbn [wrapper_of].
           assert (Hndv : NoDup (map v_raw vs)) by (rewrite Hraw; exact Hndn).
